@@ -95,6 +95,19 @@ func defaultsCorpus() []CorpusReq {
 	add("electre/distillation-omitted", el)
 	add("electre/distillation-explicit", withMP(el, M{"electreDistillation": M{"a": -0.125, "b": 0.25}}))
 	add("electre/distillation-b-only", withMP(el, M{"electreDistillation": M{"b": 0.125}}))
+	core := biasAlphabet(0)
+	for _, m := range allMethods {
+		for name, r := range map[string]M{"odd-ids": oddIdsRequest(m), "5x6": bigRequest(m)} {
+			add(m+"/"+name+"/no-bias", r)
+			add(m+"/"+name+"/omission>concealment>reversal", withBiases(r, []M{core[0], core[4], core[1]}))
+			add(m+"/"+name+"/anchoring-newCriterion>mixing>fatigue", withBiases(r, []M{core[8], core[6], core[3]}))
+		}
+	}
+	add("seeds/negative-and-beyond-32-bits", withBiases(set(ws, -7, "biasApplyRandomSeed"), []M{
+		{"name": "fatigue", "applyProbability": 0.5, "props": M{"function": "const", "params": M{"value": 0.25}, "randomSeed": 1099511627776}},
+		{"name": "criteriaOmission", "applyProbability": 0.5, "props": M{"ratio": 0.5, "ordering": "random", "randomSeed": -3}},
+		{"name": "criteriaConcealment", "props": M{"referenceCriterionType": "randomWeighted", "newCriterionRandomSeed": -1, "randomSeed": 9007199254740993}}}))
+	add("magnitudes/1e-9-and-1e12", set(set(ws, M{"c1": 1e-9, "c2": 1e12, "c3": -0.0}, "knownAlternatives", 0, "criteria"), M{"c1": 1e12, "c2": 1e-9, "c3": 4e-324}, "knownAlternatives", 1, "criteria"))
 	// declared value ranges that do not start at 0 (a range object rewritten in place would show)
 	for _, m := range []string{"weightedSum", "owa", "majorityHeuristic"} {
 		r := rootRequest(m, true, true)
